@@ -85,6 +85,7 @@ def _while_of(fi, view=None) -> ast.While:
 
 
 CAND_STATUS = {}
+NEGATED_PERFECT = []
 
 
 def check_thresh_perfect(rep, run: Run, D: Blocks, graph_status=None, cand_status=None):
@@ -159,6 +160,13 @@ def check_thresh_perfect(rep, run: Run, D: Blocks, graph_status=None, cand_statu
                     rep.discharged("BN-PERFECT", fi, ev["node"],
                                    "feasibility = matching has 2·(M+N) entries (library maps both directions)",
                                    derived=sym.show(y))
+                elif o == "!=" and sym.equal(y, total):
+                    # the negated form (`if len(m) != 2(M+N): <infeasible>`): the size compared with is the right one; which
+                    # arm counts as feasible is what BN-SEARCH follows (an inverted oracle returns the wrong candidate)
+                    rep.discharged("BN-PERFECT", fi, ev["node"],
+                                   "matching size is compared with 2·(M+N) (negated form; the arm taken as feasible is followed "
+                                   "by BN-SEARCH)", derived=sym.show(y))
+                    NEGATED_PERFECT.append(ev["node"])
                 else:
                     rep.refuted("BN-PERFECT", fi, ev["node"],
                                 f"feasibility test is `len(matching) {o} {sym.show(y)}` instead of `== 2·(M+N)`: "
@@ -180,9 +188,11 @@ def check_thresh_perfect(rep, run: Run, D: Blocks, graph_status=None, cand_statu
                 rep.discharged("BN-PERFECT", fi, ev["node"], "left labels are strings, right labels integers "
                                                              "(disjoint label sets, as the library requires)",
                                nontrivial=False)
-            elif k[0] != "str":
+            elif k[0] in ("int", "expr") and isinstance(v, Bag) and v.elem[0] == "iv":
                 rep.refuted("BN-PERFECT", fi, ev["node"], "left and right vertex labels are not of disjoint kinds; "
                                                           "the matching library conflates vertices")
+            elif k[0] != "str":
+                rep.unmodelled("BN-PERFECT", fi, ev["node"], f"kind of the left vertex labels not recognised ({k[0]})")
             break
 
 
